@@ -62,6 +62,7 @@ type FuncContract struct {
 	NoPanic        bool // generate nopanic obligations (default true for checked functions)
 	MayPanic       bool
 	Params         []string // for extern contracts: names for receiver+params
+	FreeNames      []string // a closure's contract: positional names of the captured variables
 	Asserts        map[string][]*Clause
 	CallSpecs      []*CallSpec
 	Used           bool
@@ -401,7 +402,17 @@ func (cs *ContractSet) ParseFile(path, pkgPath string) error {
 				if m := headerRe.FindStringIndex("func " + it.rest); m != nil {
 					tail := strings.TrimSpace(("func " + it.rest)[m[1]:])
 					if strings.HasPrefix(tail, "(") && strings.HasSuffix(tail, ")") {
-						for _, q := range strings.Split(tail[1:len(tail)-1], ",") {
+						inner := tail[1 : len(tail)-1]
+						// "(params | captured variables)": a closure's contract also names what it captures, in order
+						if k := strings.Index(inner, "|"); k >= 0 {
+							for _, q := range strings.Split(inner[k+1:], ",") {
+								if q = strings.TrimSpace(q); q != "" {
+									fc.FreeNames = append(fc.FreeNames, q)
+								}
+							}
+							inner = inner[:k]
+						}
+						for _, q := range strings.Split(inner, ",") {
 							if q = strings.TrimSpace(q); q != "" {
 								fc.Params = append(fc.Params, q)
 							}
